@@ -253,6 +253,15 @@ where
         crate::verif_hooks::on_contour();
         let contour_id = contours.len() as i32;
         let mut contour = Contour::initialize_from_context(&result_events[i as usize], &mut contours, contour_id);
+        #[cfg(feature = "verif-hooks")]
+        {
+            if contour.hole_of.is_some() {
+                crate::verif_hooks::path(9);
+            }
+            if result_events[i as usize].get_prev_in_result().is_none() {
+                crate::verif_hooks::path(10);
+            }
+        }
 
         let mut pos = i;
 
@@ -292,6 +301,8 @@ where
             // may mix clockwise and counter-clockwise winding rules, which can be more
             // difficult to handle in some use cases).
             if result_events[pos as usize].point == initial {
+                #[cfg(feature = "verif-hooks")]
+                crate::verif_hooks::path(8);
                 break;
             }
         }
